@@ -35,6 +35,10 @@ func violatingTable() []violating {
 		// CJK in the rule's own argument or in the judged value: the label follows the message alone
 		s("in=(男/女)", "x"), s("in=('好,的'/是)", "否"), s("include=(测试)", "abc"), s("prefix=测试", "abc"), s("suffix=验证", "abc测试"), s("to=1~2", "测试测"), s("phone", "手机号"),
 		s("ints=、", "1,2"), s("date='年'", "1996-01-01"), s("eq=2", "长度一"),
+		// long values (limits inside individual rules must not swallow the message)
+		s("json", "{"+strings.Repeat("a", 300)), s("json", strings.Repeat("[", 257)), s("json", "{\"k\":"+strings.Repeat("1", 1000)), s("to=1~2", strings.Repeat("a", 300)), s("phone", strings.Repeat("1", 300)),
+		s("email", strings.Repeat("a", 300)), s("in=(a/b)", strings.Repeat("ab", 200)), s("prefix=zz", strings.Repeat("y", 1000)), s("unique", strings.Repeat("a,", 300)), s("ints", strings.Repeat("1,", 300)+"x"),
+		s("date", strings.Repeat("1996-01-01", 30)), s("ip", strings.Repeat("1.", 200)), s("idcard", strings.Repeat("1", 257)),
 		s("required", ""), s("file", "DIR"), s("dir", "FILE"), s("file", "MISSING"), s("dir", "MISSING"),
 		{item: "re='^a$'", t: desc.Scalar("string"), v: desc.Str("b"), re: "^a$"},
 		{item: "to=1~2", t: desc.Scalar("int"), v: desc.V{I: 5}}, {item: "ge=5", t: desc.Scalar("uint8"), v: desc.V{U: 2}}, {item: "eq=2", t: desc.Scalar("float64"), v: desc.V{F: 2.5}},
@@ -135,6 +139,11 @@ func genC15Message(t *rapid.T) (*ScalarCase, string, string) {
 	}
 	key, _, _ := model.ParseItem(v.item)
 	c.T = maybeNamedDeep(t, c.T)
+	if c.Carrier == "tag" && rapid.Bool().Draw(t, "decoy") {
+		// an earlier call on the same struct type that overrides the rule with another
+		// message (of the other label kind): the tag's own message must show afterwards
+		c.Decoy = v.item + rapid.SampledFrom([]string{"|decoy message", "|诱饵说明", ""}).Draw(t, "decoyMsg")
+	}
 	return c, key, class
 }
 
